@@ -248,7 +248,7 @@ def element(version, i, name_kind, signer_kind, n):
     return el
 
 
-@obligation(tier="quick", parts=lambda tier: 12 if tier == "thorough" else 9, timeout=300,
+@obligation(tier="quick", parts=lambda tier: 12 if tier == "thorough" else 9, timeout=300, thorough_timeout=3000,
             part_names=lambda p: "v%d/%d elements/target=%s" % (1 + p // 6, 2 + (p % 6) // 3, ["first", "last", "all"][p % 3]),
             bounds="graph focus: 2 or 3 elements; per element the signer is symbolic among {root, each element, itself, dangling, missing, "
                    "non-string} and the name kind of element 1 among {own, duplicate, invalid, missing, non-string, the root's name}; targets first / last / "
